@@ -61,7 +61,23 @@ def one(name):
         subprocess.run(["rm", "-rf", W])
 
 
-with ThreadPoolExecutor(jobs) as ex:
-    for name, res in ex.map(one, names):
+# two checks of the SAME property must not run at once in one /verif (they share lean/PB/Gen and the compiled driver):
+# parallelism is across properties only
+import collections
+byprop = collections.OrderedDict()
+for n in names:
+    byprop.setdefault(n.split("-")[0], []).append(n)
+
+
+def prop_queue(ns):
+    out = []
+    for n in ns:
+        name, res = one(n)
         print(name, "CAUGHT" if res.get("caught") else "MISSED", "concrete" if res.get("concrete_input") else "no-concrete",
               ",".join(res.get("signatures", []))[:160], flush=True)
+        out.append(name)
+    return out
+
+
+with ThreadPoolExecutor(jobs) as ex:
+    list(ex.map(prop_queue, byprop.values()))
